@@ -180,7 +180,7 @@ pub fn meta(prop: Prop) -> Meta {
         Prop::C10 => Meta {
             level: "exploration",
             rule: "one evaluation = one simulated DTLS conversation: a sender stub emits flights of handshake messages (ClientHello with cookie, HelloVerifyRequest, ServerHello, Certificate, ServerHelloDone, ClientKeyExchange and, as fragments only, other kinds) with message_seq, fragmented to a per-run MTU (64..1500), packed into records and datagrams (several fragments per record, several records per datagram, CCS/alert records, epochs and 48-bit sequence numbers incl. boundaries) and retransmitted by timers on the simulated clock (1 s doubling to 60 s) with possible MTU change (overlapping fragments); the datagram network loses, duplicates, reorders and truncates; the monitor runs the real parsers on every delivered datagram; distinct = distinct abstract traces (per datagram/record: content type x outcome class x size class); non-trivial = at least 2 datagrams delivered or a fault fired",
-            fault_kinds: &["dgram-loss", "dgram-dup", "dgram-reorder", "dgram-truncate", "multi-record-datagram", "fragment", "zero-length-fragment", "overlapping-fragments", "delivered-unfragmented", "reassembled", "cap-sized-record", "synthetic-fragment-header", "many-small-records"],
+            fault_kinds: &["dgram-loss", "dgram-dup", "dgram-reorder", "dgram-truncate", "multi-record-datagram", "fragment", "zero-length-fragment", "overlapping-fragments", "delivered-unfragmented", "reassembled", "cap-sized-record", "synthetic-fragment-header", "many-small-records", "trunc-dribble"],
             cell_spaces: vec![("dframe", Some((0..16).collect())), ("dfrag", Some(vec![1, 3, 4, 5, 6, 7])), ("dmany", None)],
             real: &["parse_dtls_plaintext_records", "parse_dtls_plaintext_record", "parse_dtls_record_header", "parse_dtls_record_with_header", "parse_dtls_message_handshake", "DTLSMessage::is_fragment", "Debug of returned values"],
             stub: &["DTLS sender (flights, MTU fragmentation, retransmit timers)", "simulated clock / event queue", "datagram network (loss, dup, reorder, truncate)", "reference RFC encoder", "reference 13-byte framer", "harness reassembler (consumes only parser output)"],
